@@ -55,8 +55,10 @@ impl Out {
     }
 }
 
-fn set_keep(o: &mut Out, tier: &str, full: u64, quick_target: u64) {
-    o.keep = if tier == "thorough" { 1_000_000 } else { (quick_target * 1_000_000 / full.max(1)).clamp(1, 1_000_000) };
+/// Keep probability so that about `quick_target` / `thorough_target` of the `full` product survive.
+fn set_keep(o: &mut Out, tier: &str, full: u64, quick_target: u64, thorough_target: u64) {
+    let target = if tier == "thorough" { thorough_target } else { quick_target };
+    o.keep = (target * 1_000_000 / full.max(1)).clamp(1, 1_000_000);
 }
 
 /// A level as an integer or as a string.
@@ -194,7 +196,7 @@ const THRESHOLDS: [Option<i64>; 6] = [None, Some(-1), Some(0), Some(1), Some(50)
 /// ban / kick / unban / invite.
 fn fam_user_actions(o: &mut Out, tier: &str) {
     // versions x 4 ops x thresholds x 2 (other threshold) x 7 actor x 4 target x 7 memberships x 2 spellings x 2 targets
-    set_keep(o, tier, 9 * 4 * 6 * 3 * 7 * 4 * 7 * 2 * 2, 2600);
+    set_keep(o, tier, 9 * 4 * 6 * 3 * 7 * 4 * 7 * 2 * 2, 2600, 90_000);
     for ver in 3..=11u32 {
         for op in ["ban", "kick", "unban", "invite"] {
             let (field, dflt, membership) = match op {
@@ -245,7 +247,7 @@ fn fam_user_actions(o: &mut Out, tier: &str) {
 
 /// message and state events of every type in `TYPES`.
 fn fam_send(o: &mut Out, tier: &str) {
-    set_keep(o, tier, 9 * 2 * 22 * 4 * 4 * 7 * 2 * 3, 2200);
+    set_keep(o, tier, 9 * 2 * 22 * 4 * 4 * 7 * 2 * 3, 2200, 70_000);
     for ver in 3..=11u32 {
         for op in ["msg", "state"] {
             let dfield = if op == "msg" { "events_default" } else { "state_default" };
@@ -295,7 +297,7 @@ fn fam_send(o: &mut Out, tier: &str) {
 /// third-party-invite events, redactions (also room versions 1-2), unchanged power-levels events,
 /// canonical changes of one user's level.
 fn fam_rest(o: &mut Out, tier: &str) {
-    set_keep(o, tier, 11 * 6 * 7 * 2 * 2 * 8, 1500);
+    set_keep(o, tier, 11 * 6 * 7 * 2 * 2 * 8, 1500, 1_000_000);
     for ver in 1..=11u32 {
         for th in THRESHOLDS {
             for am_i in 0..7 {
@@ -627,7 +629,7 @@ fn random(o: &mut Out, n: usize) {
 
 /// helper-only requests over structured contents (for_user / for_action / user_can_do / push).
 fn fam_levels(o: &mut Out, tier: &str) {
-    set_keep(o, tier, 6 * 7 * 4 * 4 * 2, 500);
+    set_keep(o, tier, 6 * 7 * 4 * 4 * 2, 500, 1_000_000);
     for th in THRESHOLDS {
         for am_i in 0..7 {
             for field_i in 0..4 {
